@@ -261,8 +261,8 @@ def _c16_miri(prop, tier, seed, rundir, merged, env, root, log):
     import os, subprocess, time
     mdir = os.path.join(root, "miri")
     menv = dict(env, CARGO_TARGET_DIR=os.path.join(root, "target", "miri"))
-    workloads = (["cell-add", "readers", "helpers", "failing"] if tier == "quick"
-                 else ["cell-add", "cell-mul", "cell-or", "cell-pow", "cell-assign", "helpers", "code", "readers", "readers-struct", "failing", "run-state"])
+    workloads = (["cell-add", "readers", "helpers", "failing", "cross", "mixed"] if tier == "quick"
+                 else ["cell-add", "cell-mul", "cell-or", "cell-pow", "cell-assign", "helpers", "code", "readers", "readers-struct", "failing", "run-state", "cross", "mixed", "sites"])
     nseeds = 2 if tier == "quick" else 16
     lo = (seed * 97) % 100000
     base = ["cargo", "+nightly", "miri", "run", "-q", "--"]
